@@ -100,19 +100,30 @@ type loopSpec struct {
 	T      int64       `json:"t"`
 	DBDir  string      `json:"dbdir"`
 	Log    string      `json:"log"`
-	Place  [][2]int64  `json:"place"` // (nonce, block)
+	Place  [][2]int64  `json:"place"` // (nonce, block), every emitted bridge event, in log order
+	Bad    [][2]int64  `json:"bad"`   // (nonce, kind): events of Place the translator refuses (malformed but emittable)
 	Inputs []loopInput `json:"inputs"`
 	Start  int         `json:"start"` // index of the first input this child plays
 	SlowMs int         `json:"slowms"` // how long a "slow" log query is held back
 }
 
-func placeLine(p [][2]int64) string {
+// placeLine: `nonce@block` for a good event, `nonce!block` for an unconvertible one (ignored by the judge: the
+// property demands the GOOD confirmed events; an unconvertible one may be skipped, never its neighbours)
+func placeLine(p [][2]int64, bad [][2]int64) string {
 	if len(p) == 0 {
 		return "-"
 	}
+	isBad := map[int64]bool{}
+	for _, b := range bad {
+		isBad[b[0]] = true
+	}
 	var parts []string
 	for _, x := range p {
-		parts = append(parts, fmt.Sprintf("%d@%d", x[0], x[1]))
+		if isBad[x[0]] {
+			parts = append(parts, fmt.Sprintf("%d!%d", x[0], x[1]))
+		} else {
+			parts = append(parts, fmt.Sprintf("%d@%d", x[0], x[1]))
+		}
 	}
 	return strings.Join(parts, ",")
 }
@@ -242,6 +253,10 @@ func (e *fakeEth) GetLogs(arg filterArg) ([]ctypes.Log, error) {
 	var logs []ctypes.Log
 	bankABI := contract.LoadABI(txs.BridgeBank)
 	ev := bankABI.Events["LogLock"]
+	badKind := map[int64]int64{}
+	for _, b := range e.c.spec.Bad {
+		badKind[b[0]] = b[1] + 1
+	}
 	for _, p := range e.c.spec.Place {
 		if p[1] < lo.Int64() || p[1] > hi.Int64() {
 			continue
@@ -249,8 +264,29 @@ func (e *fakeEth) GetLogs(arg filterArg) ([]ctypes.Log, error) {
 		var from common.Address
 		from[19] = byte(p[0])
 		from[0] = 0xaa
-		to := []byte(sdk.AccAddress(append(make([]byte, 19), byte(p[0]))).String())
-		data, err := ev.Inputs.Pack(from, to, common.Address{}, "eth", big.NewInt(1000+p[0]), big.NewInt(p[0]))
+		good := sdk.AccAddress(append(make([]byte, 19), byte(p[0]))).String()
+		to := []byte(good)
+		token, symbol := common.Address{}, "eth"
+		// malformed but emittable: BridgeBank.sol checks only prefix and length of the recipient text
+		switch badKind[p[0]] {
+		case 1: // typo: bech32 checksum does not match
+			b := []byte(good)
+			if b[len(b)-1] == 'q' {
+				b[len(b)-1] = 'p'
+			} else {
+				b[len(b)-1] = 'q'
+			}
+			to = b
+		case 2: // an operator address pasted as recipient (wrong prefix)
+			to = []byte(sdk.ValAddress(append(make([]byte, 19), byte(p[0]))).String())
+		case 3: // truncated
+			to = []byte(good[:len(good)-3])
+		case 4: // empty
+			to = []byte{}
+		case 5: // "eth" reported by a non-null token contract
+			token = common.HexToAddress("0x1000000000000000000000000000000000000001")
+		}
+		data, err := ev.Inputs.Pack(from, to, token, symbol, big.NewInt(1000+p[0]), big.NewInt(p[0]))
 		if err != nil {
 			panic(err)
 		}
@@ -594,7 +630,9 @@ func runLoopChild(specPath string) {
 				if ck == 'b' && broadcasts == kk {
 					c.die(idx) // on the k-th broadcast, before it is received
 				}
-				c.record("C " + strings.TrimPrefix(ev, "broadcast "))
+				if ns := strings.TrimPrefix(ev, "broadcast "); ns != "-" {
+					c.record("C " + ns) // (a transaction without claims — every event of the range refused — carries nothing)
+				}
 				c.reply <- "ok"
 				if ck == 'a' && broadcasts == kk {
 					if in.Out == "c4" {
@@ -632,7 +670,38 @@ func runLoopChild(specPath string) {
 type loopCase struct {
 	p0     int64
 	place  [][2]int64
+	bad    [][2]int64 // (nonce, kind) of the unconvertible events among place
 	inputs []loopInput
+}
+
+// addBadEvents mixes unconvertible events into ranges that hold good ones: right before / after a good event of
+// the same block, or in a block next to it (scanned together with it).
+func addBadEvents(r *Rng, lc *loopCase) {
+	if len(lc.place) == 0 || len(lc.place) > 200 {
+		return
+	}
+	nonce := int64(200)
+	k := 1 + r.Intn(3)
+	for ; k > 0 && nonce < 250; k-- {
+		i := r.Intn(len(lc.place))
+		blk := lc.place[i][1]
+		at := i
+		switch r.Intn(4) {
+		case 0: // before the good event, same block
+		case 1: // after it, same block
+			at = i + 1
+		case 2: // next block, if that keeps the log order
+			if i+1 == len(lc.place) || lc.place[i+1][1] > blk+1 {
+				blk, at = blk+1, i+1
+			}
+		case 3: // first event of the whole placement, same block as the first good one
+			at, blk = 0, lc.place[0][1]
+		}
+		ev := [2]int64{nonce, blk}
+		lc.place = append(lc.place[:at], append([][2]int64{ev}, lc.place[at:]...)...)
+		lc.bad = append(lc.bad, [2]int64{nonce, int64(r.Intn(5))})
+		nonce++
+	}
 }
 
 // sentinelised: the child pushes a header 0 after every iteration that reaches the log query and is not
@@ -678,7 +747,7 @@ func runLoopCase(id int, lc loopCase, workdir string) (string, error) {
 		return "", err
 	}
 	for round := 0; round < 40; round++ {
-		spec := loopSpec{T: 50, DBDir: dbdir, Log: logp, Place: lc.place, Inputs: lc.inputs, Start: start, SlowMs: 26000}
+		spec := loopSpec{T: 50, DBDir: dbdir, Log: logp, Place: lc.place, Bad: lc.bad, Inputs: lc.inputs, Start: start, SlowMs: 26000}
 		sp := filepath.Join(dir, fmt.Sprintf("spec%d.json", round))
 		b, _ := json.Marshal(spec)
 		if err := os.WriteFile(sp, b, 0o644); err != nil {
@@ -1085,7 +1154,16 @@ func init() {
 		// one directed schedule first: fresh relayer, failure, crashes at the submission points, lower head
 		for i := range cases {
 			cases[i] = genLoopCase(rng)
+			if rng.Intn(3) == 0 {
+				addBadEvents(rng, &cases[i])
+			}
 			fixCrashPoints(&cases[i])
+		}
+		if n > 4 {
+			// directed: block 1000 holds a good lock (1) and a lock whose recipient has a typo (2), block 1001 a good lock (3)
+			cases[4] = loopCase{p0: 990, place: [][2]int64{{1, 1000}, {2, 1000}, {3, 1001}}, bad: [][2]int64{{2, 0}},
+				inputs: []loopInput{{Kind: "h", N: 1051, Out: "d"}, {Kind: "h", N: 1052, Out: "d"}, {Kind: "x"}, {Kind: "h", N: 1053, Out: "d"}}}
+			fixCrashPoints(&cases[4])
 		}
 		if n > 0 {
 			cases[0] = loopCase{p0: 0, place: [][2]int64{{1, 70}, {2, 75}, {3, 76}, {4, 90}},
@@ -1144,7 +1222,7 @@ func init() {
 				os.Exit(1)
 			}
 			tr := rawTrace(results[i].obs)
-			pl := placeLine(lc.place)
+			pl := placeLine(lc.place, lc.bad)
 			out.Emit(fmt.Sprintf("looprun 50 %d %s %s", lc.p0, pl, inputsLine(lc.modelInputs())), tr, "looprun", true)
 			out.Emit(fmt.Sprintf("chk c17.trace tag=loop.trace-admissible 50 %d %s %s", lc.p0, pl, tr), "true", "chk.trace", false)
 			out.Emit(fmt.Sprintf("chk c17.gapfree tag=loop.gap 50 %d %s %s", lc.p0, pl, tr), "true", "chk.gapfree", false)
